@@ -56,6 +56,7 @@ class GenCfg:
     big_caps: bool = False
     basename_differs: float = 0.0  # probability that file base name != proto name
     name_prefix: float = 0.0  # probability of option c.name_prefix
+    bad_packing: float = 0.0  # given the option: probability of a value no C compiler takes as an alignment (3, 5, 6, 7) - must be rejected
     packing: float = 0.0  # probability of c.struct_packing_alignment
     min_messages: int = 1
     hex_enum: float = 0.2
@@ -291,7 +292,7 @@ class SchemaGen:
         if rng.random() < cfg.name_prefix:
             f.add(Option("c.name_prefix", rng.choice(["my_prefix_", "Ab", "xq_", "Zz"])))
         if rng.random() < cfg.packing:
-            f.add(Option("c.struct_packing_alignment", rng.choice([1, 2, 4, 8])))
+            f.add(Option("c.struct_packing_alignment", rng.choice([3, 5, 6, 7]) if rng.random() < cfg.bad_packing else rng.choice([1, 2, 4, 8])))
         if rng.random() < cfg.module_options:
             f.add(Option("py.module_name", f"{f.basename}_bp"))
             f.add(Option("go.package_path", f"example.com/gen/{f.proto_name}_bp"))
